@@ -233,6 +233,62 @@ fn c18_join_str_item() {
 }
 }
 
+impl<'p> Evaluator<'_, 'p> {
+    /// Recording stub for `Evaluator::get_slice_range` (whose arithmetic is decided for every length and every
+    /// bound by `c02_slice_range`): pushes the length it is handed on the value stack and answers with the empty
+    /// range, so that no result string is built.
+    pub(in crate::program) fn kstub_get_slice_range_record(
+        &mut self,
+        indexable_len: usize,
+        _start: Option<f64>,
+        _end: Option<f64>,
+        _step: Option<f64>,
+        _span: Option<SpanId>,
+    ) -> EvalResult<(usize, usize, usize)> {
+        self.value_stack.push(ValueData::Number(indexable_len as f64));
+        Ok((0, 0, 1))
+    }
+}
+
+/// Two arbitrary characters of the UTF-8 widths W1 and W2 (concrete length, symbolic content).
+fn slice_len_arg_case<const W1: usize, const W2: usize>() {
+    let arena = Arena::new();
+    let mut program = bare_program(&arena);
+    let mut ev = bare_evaluator(&mut program);
+    let c1: char = kani::any();
+    let c2: char = kani::any();
+    kani::assume(c1.len_utf8() == W1 && c2.len_utf8() == W2);
+    let mut buf = [0u8; 8];
+    c1.encode_utf8(&mut buf[..W1]);
+    c2.encode_utf8(&mut buf[W1..W1 + W2]);
+    let s: &str = core::str::from_utf8(&buf[..W1 + W2]).unwrap();
+    let res = ev.do_slice_string(s, Some(-1.0), None, None, None);
+    assert!(res.is_ok(), "the stubbed range is accepted");
+    assert!(ev.value_stack.len() == 2, "one recorded length, one result");
+    assert!(matches!(ev.value_stack[0], ValueData::Number(n) if n == 2.0), "the length of a string is its number of code points");
+    assert!(matches!(&ev.value_stack[1], ValueData::String(r) if r.len() == 0), "the empty range gives the empty string");
+    core::mem::forget(res);
+    core::mem::forget(ev);
+    core::mem::forget(program);
+}
+
+// @harness id=c18_slice_string_len_arg props=C18,C02:thorough tier=quick cap=900
+// @desc do_slice_string (s[a:b:c], std.slice on strings) on strings of two arbitrary characters of the UTF-8 widths (2,3), (4,1) and (1,1): the length handed to the range computation is the number of CODE POINTS (2), never the byte length (5, 5, 2). Composes with c02_slice_range, which decides the range arithmetic of the real get_slice_range for every length and every bound
+// @bound strings of 2 arbitrary Unicode scalar values of widths (2,3), (4,1), (1,1); get_slice_range replaced by a recording stub that returns the empty range; core::str::count::count_chars replaced by the plain non-continuation-byte loop (the selection of characters by skip/take/step_by on str::chars is not covered)
+// @funcs Evaluator::do_slice_string
+eval_stubs! {
+#[kani::proof]
+#[kani::unwind(12)]
+#[kani::stub(crate::program::eval::Evaluator::get_slice_range, crate::program::eval::Evaluator::kstub_get_slice_range_record)]
+#[kani::stub(core::str::count::count_chars, crate::kani_support::stub_count_chars)]
+fn c18_slice_string_len_arg() {
+    slice_len_arg_case::<2, 3>();
+    slice_len_arg_case::<4, 1>();
+    slice_len_arg_case::<1, 1>();
+    kani::cover!(true, "all cases completed");
+}
+}
+
 // @harness id=c18_must_fail props=C18 tier=quick cap=1500 expect=fail
 // @desc vacuity twin of the string harnesses
 eval_stubs! {
